@@ -3,6 +3,7 @@
 package main
 
 import (
+	"os"
 	"context"
 	"crypto/tls"
 	"encoding/base64"
@@ -41,6 +42,7 @@ type fsrv struct {
 
 	closeOnEOF          atomic.Bool // life mode: the server closes its side when the client goes away
 	keepFailedHandshake atomic.Bool // keep a connection whose TLS handshake failed until the client closes it
+	halfDone            atomic.Bool // fault "halfonce" has been served
 }
 
 func (s *fsrv) f() string { return s.fault.Load().(string) }
@@ -157,6 +159,7 @@ func (s *fsrv) streamServe(c net.Conn, useTLS bool) {
 	var wm sync.Mutex
 	h := make([]byte, 2)
 	served := 0 // queries answered on this connection
+	wedged := false
 	for {
 		if _, err := io.ReadFull(c, h); err != nil {
 			if s.closeOnEOF.Load() {
@@ -190,6 +193,17 @@ func (s *fsrv) streamServe(c net.Conn, useTLS bool) {
 		case "garbage":
 			c.Write([]byte{0, 5, 1, 2, 3, 4, 5})
 			continue
+		case "halfonce":
+			// once: the second query of a connection gets a frame whose length lies (65535 announced, 12 octets
+			// follow) and the connection is kept open, unanswered from then on. Everything else is healthy.
+			if wedged {
+				continue
+			}
+			if served >= 1 && s.halfDone.CompareAndSwap(false, true) {
+				wedged = true
+				c.Write(append([]byte{0xff, 0xff}, make([]byte, 12)...))
+				continue
+			}
 		case "garbage2nd":
 			// the first query of every connection is answered; the second one gets a well-framed message that
 			// does not decode (header announces five questions, none follows) and nothing else on this
@@ -525,7 +539,11 @@ func faultScenario(kind, fault string, rng *rand.Rand) {
 	s := newFsrv(kind)
 	defer s.close()
 	var dials atomic.Int32
-	opt := upstream.Opt{TLSConfig: &tls.Config{InsecureSkipVerify: true}, DialTimeout: 3 * time.Second,
+	idle := time.Duration(0)
+	if fault == "halfsteady" {
+		idle = 400 * time.Millisecond
+	}
+	opt := upstream.Opt{TLSConfig: &tls.Config{InsecureSkipVerify: true}, DialTimeout: 3 * time.Second, IdleTimeout: idle,
 		Control: func(network, address string, c syscall.RawConn) error {
 			if strings.HasSuffix(address, ":0") || strings.HasPrefix(address, ":") || strings.HasPrefix(address, "[::]") || strings.HasPrefix(address, "0.0.0.0") {
 				return nil
@@ -607,6 +625,25 @@ func faultScenario(kind, fault string, rng *rand.Rand) {
 		for i := 0; i < 3; i++ {
 			one(1500*time.Millisecond, "reply")
 		}
+	case "halfsteady":
+		// a reply frame whose length field lies wedges the reader of one multiplexed connection while queries keep
+		// coming (so the connection is never without a waiter). The connection's idle time-out (400 ms here) must
+		// still end it: queries started well after that are answered on a new connection - the proxy does not
+		// stop serving because of one malformed frame
+		s.fault.Store("halfonce")
+		one(800*time.Millisecond, "reply")
+		var wg sync.WaitGroup
+		t0 := time.Now()
+		for time.Since(t0) < 2400*time.Millisecond {
+			want := "any"
+			if time.Since(t0) > 1500*time.Millisecond {
+				want = "reply"
+			}
+			wg.Add(1)
+			go func() { defer wg.Done(); one(300*time.Millisecond, want) }()
+			time.Sleep(70 * time.Millisecond)
+		}
+		wg.Wait()
 	case "garbage2nd":
 		// a reused connection fails (undecodable reply) while a healthy server is reachable: the exchange is
 		// retried on another connection and succeeds
@@ -793,15 +830,27 @@ func modeFault(thorough bool) {
 	onlyEvents = map[string]bool{} // hook and server events are not needed here
 	rng := rand.New(rand.NewSource(seed))
 	kinds := []string{"udp", "tcp", "tcp+pipeline", "tls", "tls+pipeline", "https", "quic", "h3"}
-	faults := []string{"refuse", "silent", "noreply", "half", "garbage", "fin", "rst", "stall", "stale", "kill", "sndbuf", "sndbuf2", "sndbuf3", "eol", "restart", "garbage2nd"}
+	faults := []string{"refuse", "silent", "noreply", "half", "garbage", "fin", "rst", "stall", "stale", "kill", "sndbuf", "sndbuf2", "sndbuf3", "eol", "restart", "garbage2nd", "halfsteady"}
 	var wg sync.WaitGroup
 	sem := make(chan struct{}, 6)
+	only := map[string]bool{}
+	for _, f := range strings.Split(os.Getenv("VERIF_FAULTS"), ",") {
+		if f != "" {
+			only[f] = true
+		}
+	}
 	for _, k := range kinds {
 		for _, f := range faults {
+			if len(only) > 0 && !only[f] {
+				continue
+			}
 			if k == "udp" && (f == "fin" || f == "rst" || f == "stale" || f == "stall" || f == "kill" || f == "sndbuf" || f == "sndbuf2" || f == "sndbuf3") {
 				continue
 			}
 			if f == "garbage2nd" && !(k == "tcp" || k == "tcp+pipeline" || k == "tls" || k == "tls+pipeline") {
+				continue
+			}
+			if f == "halfsteady" && !(k == "tcp+pipeline" || k == "tls+pipeline") {
 				continue
 			}
 			if f == "restart" && !(k == "quic" || k == "h3") {
